@@ -325,10 +325,14 @@ ALPHA_OPS = {'mod', 'rem', 'is', 'div', 'rdiv', 'xor', 'dynamic', 'discontiguous
              'module_transparent', 'multifile', 'public', 'table', 'volatile', 'thread_local', 'thread_initialization', 'as'}
 
 
+# checks that install their own operators add the names here so that they are bracketed as operands
+EXTRA_OPS = set()
+
+
 def atom_operand(s):
     """text of an atom in operand/argument position: anything that could be an operator is bracketed"""
     q = quote_atom(s)
-    if (_PLAIN.match(s) and s not in ALPHA_OPS) or s in ('[]', '{}'):
+    if (_PLAIN.match(s) and s not in ALPHA_OPS and s not in EXTRA_OPS) or s in ('[]', '{}'):
         return q
     return '(' + q + ')'
 
